@@ -77,9 +77,19 @@ int main() {
         std::istringstream in(line);
         std::string op; in >> op;
         if (op.empty()) continue;
+        // in-place call forms:  op@i   the (first) output IS the object passed as input i;   op@@i  the second output;
+        //                       op@i@@j both.  i = 9 stands for the modulus object pk of the prime-power functions.
+        int al1 = -1, al2 = -1;
+        { size_t q2 = op.find("@@"); if (q2 != std::string::npos) { al2 = atoi(op.c_str() + q2 + 2); op.erase(q2); }
+          size_t q1 = op.find('@');  if (q1 != std::string::npos) { al1 = atoi(op.c_str() + q1 + 1); op.erase(q1); } }
         std::vector<Z> a; { std::string t; while (in >> t) a.push_back(Z(t.c_str())); }
+        const std::vector<Z> a0(a);                       // the values of the arguments before the call
         std::ostringstream o;
-        Z r, r2, r3;
+        Z r_, r2_, r3, pk_;
+        if ((al1 >= 0 && al1 != 9 && (size_t)al1 >= a.size()) || (al2 >= 0 && al2 != 9 && (size_t)al2 >= a.size())) { std::cout << "BAD-ALIAS" << std::endl; continue; }
+        Z& r  = (al1 == 9) ? pk_ : (al1 >= 0 ? a[al1] : r_);
+        Z& r2 = (al2 == 9) ? pk_ : (al2 >= 0 ? a[al2] : r2_);
+        Z& pk = pk_;
         // re-seeding costs ~0.6 ms (Mersenne twister): done only for the calls that can reach a random choice
         // (for the sqrt-mod-prime family: only when p = 1 mod 8, the Mueller / Tonelli-Shanks classes)
         const uint64_t seed = line_seed(line);
@@ -110,9 +120,9 @@ int main() {
             std::vector<Z> L(a.begin() + 1, a.end()); Z phin(a[0]); phin -= 1;
             NT.prim_root_of_prime(r, L, phin, a[0]); o << r; }
         else if (op == "lowest_prim_root") { NT.lowest_prim_root(r, a[0]); o << r; }
-        else if (op == "probable_prim_root.L") { double e = -1; NT.probable_prim_root(r, e, a[0], (uint64_t)a[1]); o << r << " " << (e == 0.0 ? 0 : 1); print_draws_below(o, NT, seed, a[0], (uint64_t)a[1], 80); print_set(o, NT, a[0], (uint64_t)a[1]); }
-        else if (op == "probable_prim_root.default") { double e = -1; NT.probable_prim_root(r, e, a[0]); o << r << " " << (e == 0.0 ? 0 : 1); print_draws_below(o, NT, seed, a[0], 10000000UL, 80); print_set(o, NT, a[0], 10000000UL); }
-        else if (op == "probable_prim_root.eps") { double e = -1; NT.probable_prim_root(r, e, a[0], 1e-9); o << r << " " << ((e >= 0.0 && e < 1e-3) ? 0 : 1); print_draws_below(o, NT, seed, a[0], 10000000UL, 80); print_set(o, NT, a[0], 10000000UL); }
+        else if (op == "probable_prim_root.L") { double e = -1; NT.probable_prim_root(r, e, a[0], (uint64_t)a0[1]); o << r << " " << (e == 0.0 ? 0 : 1); print_draws_below(o, NT, seed, a0[0], (uint64_t)a0[1], 80); print_set(o, NT, a0[0], (uint64_t)a0[1]); }
+        else if (op == "probable_prim_root.default") { double e = -1; NT.probable_prim_root(r, e, a[0]); o << r << " " << (e == 0.0 ? 0 : 1); print_draws_below(o, NT, seed, a0[0], 10000000UL, 80); print_set(o, NT, a0[0], 10000000UL); }
+        else if (op == "probable_prim_root.eps") { double e = -1; NT.probable_prim_root(r, e, a[0], 1e-9); o << r << " " << ((e >= 0.0 && e < 1e-3) ? 0 : 1); print_draws_below(o, NT, seed, a0[0], 10000000UL, 80); print_set(o, NT, a0[0], 10000000UL); }
 #ifdef C13_HAVE_PRIM_INV
         else if (op == "prim_inv") { NT.prim_inv(r, a[0]); o << r; }
 #else
@@ -129,10 +139,10 @@ int main() {
         else if (op == "lambda_inv_primpow") { NT.lambda_inv_primpow(r, a[0], (uint64_t)a[1]); o << r; }
         // ------------------------------------------------------------ square roots
         else if (op == "sqrootmod") { SQ.sqrootmod(r, a[0], a[1]); o << r; }
-        else if (op == "sqrootmodprime") { SQ.sqrootmodprime(r, a[0], a[1]); o << r; if (pdraws) print_draws(o, seed, a[1], 40); }
-        else if (op == "sqrootmodprimepower") { Z pk = zpow(a[1], (uint64_t)a[2]); SQ.sqrootmodprimepower(r, a[0], a[1], (uint64_t)a[2], pk); o << r; if (pdraws) print_draws(o, seed, a[1], 40); }
-        else if (op == "sqrootmodpoweroftwo") { Z pk = zpow(Z(2), (uint64_t)a[1]); SQ.sqrootmodpoweroftwo(r, a[0], (uint64_t)a[1], pk); o << r; }
-        else if (op == "sqrootlinear") { SQ.linear(r, a[0], a[1], (uint64_t)a[2]); o << r; if (pdraws) print_draws(o, seed, a[1], 40); }
+        else if (op == "sqrootmodprime") { SQ.sqrootmodprime(r, a[0], a[1]); o << r; if (pdraws) print_draws(o, seed, a0[1], 40); }
+        else if (op == "sqrootmodprimepower") { pk = zpow(a[1], (uint64_t)a[2]); SQ.sqrootmodprimepower(r, a[0], a[1], (uint64_t)a[2], pk); o << r; if (pdraws) print_draws(o, seed, a0[1], 40); }
+        else if (op == "sqrootmodpoweroftwo") { pk = zpow(Z(2), (uint64_t)a[1]); SQ.sqrootmodpoweroftwo(r, a[0], (uint64_t)a[1], pk); o << r; }
+        else if (op == "sqrootlinear") { SQ.linear(r, a[0], a[1], (uint64_t)a[2]); o << r; if (pdraws) print_draws(o, seed, a0[1], 40); }
         else if (op == "sqroottwolinear") { SQ.twolinear(r, a[0], (uint64_t)a[1]); o << r; }
         else if (op == "sqroothensellift") { r = a[0]; Z pk = zpow(a[2], (uint64_t)a[3]); SQ.hensel(r, a[1], a[2], (uint64_t)a[3], pk); o << r; }
         else if (op == "sqrootonemorelift") { r = a[0]; Z pk = zpow(a[2], (uint64_t)a[3]); SQ.onemore(r, a[1], a[2], (uint64_t)a[3], pk); o << r; }
@@ -140,7 +150,7 @@ int main() {
         else if (op == "brillhart") { SQ.Brillhart(r, r2, a[0]); o << r << " " << r2; }
         else if (op == "sumofsquares") { SQ.sumofsquaresmodprime(r, r2, a[0], a[1]); o << r << " " << r2; }
         else if (op == "sumofsquares.det") { SQ.sumofsquaresmodprimeDeterministic(r, r2, a[0], a[1]); o << r << " " << r2; }
-        else if (op == "sumofsquares.mc") { SQ.sumofsquaresmodprimeMonteCarlo(r, r2, a[0], a[1]); o << r << " " << r2; print_draws_bits(o, seed, a[1], 40); }
+        else if (op == "sumofsquares.mc") { SQ.sumofsquaresmodprimeMonteCarlo(r, r2, a[0], a[1]); o << r << " " << r2; print_draws_bits(o, seed, a0[1], 40); }
         else if (op == "sumofsquares.noerh") { SQ.sumofsquaresmodprimeNoERH(r, r2, a[0], a[1]); o << r << " " << r2; }
         else if (op == "sumofsquares.nonres") { SQ.sumofsquaresmodprimewithnonresidue(r, r2, a[0], a[1], a[2]); o << r << " " << r2; }
         // ------------------------------------------------------------ gmp++_int_misc.C
@@ -148,11 +158,17 @@ int main() {
         else if (op == "legendre") { o << legendre(a[0], a[1]); }
         else if (op == "kronecker") { o << kronecker(a[0], a[1]); }
         else if (op == "logp") { o << logp(a[0], a[1]); }
-        else if (op == "sqrt.ra") { r = 77; sqrt(r, a[0]); o << r; }
+        else if (op == "sqrt.ra") { if (al1 < 0) r = 77; sqrt(r, a[0]); o << r; }
         else if (op == "sqrt.a") { o << sqrt(a[0]); }
-        else if (op == "sqrtrem.rar") { r = 77; r2 = 78; sqrtrem(r, a[0], r2); o << r << " " << r2; }
-        else if (op == "sqrtrem.ar") { r2 = 78; r = sqrtrem(a[0], r2); o << r << " " << r2; }
-        else if (op == "root") { r = 77; bool ex = root(r, a[0], (uint32_t)(uint64_t)a[1]); o << r << " " << (ex ? 1 : 0); }
+        else if (op == "sqrtrem.rar") { if (al1 < 0) r = 77; if (al2 < 0) r2 = 78; sqrtrem(r, a[0], r2); o << r << " " << r2; }
+        else if (op == "sqrtrem.ar") { if (al2 < 0) r2 = 78; r_ = sqrtrem(a[0], r2); o << r_ << " " << r2; }
+        else if (op == "root") { if (al1 < 0) r = 77; bool ex = root(r, a[0], (uint32_t)(uint64_t)a0[1]); o << r << " " << (ex ? 1 : 0); }
+        // ------------------------------------------------------------ helpers of the domain with an output parameter
+        else if (op == "gcd") { NT.gcd(r, a[0], a[1]); o << r; }
+        else if (op == "powmod") { NT.powmod(r, a[0], a[1], a[2]); o << r; }
+        else if (op == "inv") { Givaro::inv(r, a[0], a[1]); o << r; }
+        else if (op == "invin") { r_ = a[0]; NT.invin(al1 >= 0 ? r : r_, a[1]); o << (al1 >= 0 ? r : r_); }
+        else if (op == "mod") { NT.mod(r, a[0], a[1]); o << r; }
         else o << "UNKNOWN-OP";
         std::cout << o.str() << std::endl;
     }
